@@ -44,15 +44,20 @@ def hardErr : Option Err → Option Err
 section
 variable (src : Source) (sf : Nat)
 
-/-- `tryHex`: `#` and two hex digits in the window → consume all three -/
-def tryHexBuf (s : SB) : SB × Option Nat :=
-  let (s1, buf, _) := peekN src 3 s
-  match buf with
-  | [_, h, l] =>
-    match hexVal h, hexVal l with
-    | some a, some b => (adv 3 s1, some (a * 16 + b))
-    | _, _ => (s1, none)
-  | _ => (s1, none)
+/-- `tryHex`: `#` and two hex digits in the window → consume all three; a read error of the
+    `PeekN(3)` is handed to `ReadName` (fix of finding ROB-7, library commit 325162a; `PeekN` reports no error at a true end of
+    the input) -/
+def tryHexBuf (s : SB) : SB × Except Err (Option Nat) :=
+  let (s1, buf, err) := peekN src 3 s
+  match err with
+  | some e => (s1, .error e)
+  | none =>
+    match buf with
+    | [_, h, l] =>
+      match hexVal h, hexVal l with
+      | some a, some b => (adv 3 s1, .ok (some (a * 16 + b)))
+      | _, _ => (s1, .ok none)
+    | _ => (s1, .ok none)
 
 /-- the loop of `ReadName` (after the slash) -/
 def readNameLoopBuf : Nat → Nat → SB → SB × Except Err Bytes
@@ -69,8 +74,9 @@ def readNameLoopBuf : Nat → Nat → SB → SB × Except Err Bytes
         else if len ≥ Gen.scanner_maxNameBytes then (s1, .error .malformed)
         else if b == 35 then
           match tryHexBuf src s1 with
-          | (s2, some v) => consB v (readNameLoopBuf fuel (len + 1) s2)
-          | (s2, none) => consB 35 (readNameLoopBuf fuel (len + 1) (adv 1 s2))
+          | (s2, .error e) => (s2, .error e)
+          | (s2, .ok (some v)) => consB v (readNameLoopBuf fuel (len + 1) s2)
+          | (s2, .ok none) => consB 35 (readNameLoopBuf fuel (len + 1) (adv 1 s2))
         else consB b (readNameLoopBuf fuel (len + 1) (adv 1 s1))
 
 /-- `ReadName` -/
@@ -178,7 +184,8 @@ def readHexStringBuf (s : SB) : SB × Except Err Bytes :=
     `ROB scan` lines drive): `SkipString("stream")`, `PeekN(2)` for the end of the keyword line, then
     the malformed-file error "cannot read stream data" (or "stream does not start with newline");
     the deferred function turns EOF into a malformed-file error and keeps every other error.
-    (`getInt` on `/Length` has no effect on this path.) -/
+    (`getInt` on `/Length` has no effect on this path: the test scanner's `getInt` fails with
+    malformed-file errors only, which `ReadStreamData` takes as "length unknown".) -/
 def readStreamHeadBuf (s : SB) : SB × Except Err Obj :=
   let (s1, e1) := skipString src kw_stream s
   match e1 with
